@@ -6,6 +6,7 @@ import (
 	"encoding/json"
 	"fmt"
 	"github.com/google/uuid"
+	"github.com/zilliztech/milvus-cdc/core/pb"
 	"net/http"
 	"net/http/httptest"
 	"os"
@@ -115,6 +116,13 @@ type SState struct {
 	ConnCalls    int                                  `json:"conn_calls"`              // running number of message-queue connection checks
 	Overlap      map[string]bool                      `json:"overlap,omitempty"`       // tasks whose record was being updated by a background transition (failure pause) while an operator request on the same task was in flight
 	SimSecs      float64                              `json:"sim_secs"`
+	// C04 on the whole server
+	DropSeen    map[string][2]int `json:"drop_seen,omitempty"`     // "target|collection|shard" -> (incarnation, step) at which the drop message was first delivered to a stream of that downstream
+	DropRecPrev map[string]bool   `json:"drop_rec_prev,omitempty"` // "target#ddl index" -> the drop-readiness record of that collection was in the store right before the step of the request
+	DDLSeen     []int             `json:"ddl_seen,omitempty"`      // per downstream: DDL records already looked at
+	DropSkipped map[string]bool   `json:"drop_skipped,omitempty"`  // "target|collection|shard" -> a resume dropped the drop message through the time filter of its seek
+	DownEvents  int               `json:"down_events,omitempty"`   // history events published while no incarnation was running
+	CatDropAt   map[string][2]int `json:"cat_drop_at,omitempty"`   // collection id -> (incarnation, step) at which the source catalog began to show it as dropping
 }
 
 // ------------------------------------------------------------------ rig
@@ -173,6 +181,7 @@ type RigS struct {
 	faultsAtStart      int
 	storeFaultsAtStart int
 	deletedAt          map[string]int
+	prevRaw            string         // the persisted content at the previous scheduler step
 	bgWriteStep        map[string]int // task -> step of the last write of its record made while no request on it was in flight
 }
 
@@ -421,6 +430,21 @@ func (r *RigS) loadState() {
 	if st.Tasks == nil {
 		st.Tasks = map[string]*SMTask{}
 	}
+	if st.DropSeen == nil {
+		st.DropSeen = map[string][2]int{}
+	}
+	if st.DropRecPrev == nil {
+		st.DropRecPrev = map[string]bool{}
+	}
+	if st.DropSkipped == nil {
+		st.DropSkipped = map[string]bool{}
+	}
+	if st.CatDropAt == nil {
+		st.CatDropAt = map[string][2]int{}
+	}
+	for len(st.DDLSeen) < 2 {
+		st.DDLSeen = append(st.DDLSeen, 0)
+	}
 	r.st = st
 }
 
@@ -652,6 +676,11 @@ func (r *RigS) applyHistory(h *HEvent) {
 			}
 		}
 		w.Apply(r.src)
+		if w.What == "coll" && w.State == int(pb.CollectionState_CollectionDropping) {
+			if _, have := r.st.CatDropAt[fmt.Sprint(w.Coll)]; !have {
+				r.st.CatDropAt[fmt.Sprint(w.Coll)] = [2]int{r.plan.Incarnation, r.s.Step}
+			}
+		}
 		r.s.Side("catalog write %s coll=%d state=%d", w.What, w.Coll, w.State)
 	case "mq":
 		es := make([]*REntry, len(h.Es))
@@ -1230,6 +1259,14 @@ func (r *RigS) run() {
 								r.mu.Lock()
 								r.delivered[fmt.Sprintf("%d|%d|%d", tgt, stt.Coll, stt.Shard)] = dp.EndSeq
 								r.mu.Unlock()
+								for _, e := range dp.Entries {
+									if e.Kind == "dropc" && e.Coll == stt.Coll {
+										k := fmt.Sprintf("%d|%d|%d", tgt, stt.Coll, stt.Shard)
+										if _, seen := st.DropSeen[k]; !seen {
+											st.DropSeen[k] = [2]int{r.plan.Incarnation, s.Step}
+										}
+									}
+								}
 							}
 						}
 					}
@@ -1269,6 +1306,22 @@ func (r *RigS) run() {
 				s.Stats["fault:crash"]++
 				s.logf("%04d CRASH (incarnation %d ends)", s.Step, r.plan.Incarnation)
 				r.afterStep(true)
+				if r.plan.Prop == "C04" && isReloaded() {
+					// the source goes on while the service is down: the next 0..3 events of the history happen now
+					for n := s.Tape.Choose(4); n > 0 && st.HistPos < len(sc.History); n-- {
+						h := &sc.History[st.HistPos]
+						r.applyHistory(h)
+						st.HistPos++
+						st.DownEvents++
+						for _, e := range h.Es {
+							if e.Kind == "dropc" {
+								s.Probe("S_dropped_while_down")
+							}
+						}
+						s.logf("%04d (down) hist:%04d:%s", s.Step, st.HistPos-1, h.K)
+					}
+					s.flushSide()
+				}
 				r.saveState("crash")
 				res := s.Result("crash_continue")
 				WriteResult(res)
